@@ -539,7 +539,9 @@ func c15GuardedFields(p *Prog, r *Report) int {
 		// which fields are written in methods
 		written := map[string]bool{}
 		for _, fi := range methods {
-			lr := p.LockFlow(fi, nil)
+			// an unexported method starts with the locks held at all of its call sites (a lookup helper that is
+			// only called with the registry's lock held)
+			lr := p.LockFlow(fi, entryHeldFor(p, fi))
 			results[fi.Key] = lr
 			for _, ev := range lr.Events {
 				if ev.Kind == "fieldwrite" && ev.Field != nil && c15FieldOf(o.st, ev.Field) {
